@@ -110,6 +110,9 @@ def special_pairs():
         # paths went through a cache that identifies 1.0, 1 and True)
         ({1.0: (1, 2)}, {1.0: (1, 3)}), ([0, (1, 2)], [0, (1, 3)]), ({True: (5, 6)}, {True: (5, 7)}), ({1: (1, 2), 'k': [0, (4, 5)]}, {1: (9, 2), 'k': [0, (4, 6)]}),
         ({0.0: [(1, 2)], False: 1}, {0.0: [(1, 3)], False: 1}), ([(1, 2), 0], [(1, 3), 0]),
+        # flat sequences edited by deletions and insertions only (no replaced chunk), with a deletion and an insertion at one index
+        ([10, 1, 2, 11, 3], [1, 2, 3, 12]), ([1, 2, 1], [3, 1, 3, 2]), (('a', 'b', 'c', 'd', 'e'), ('b', 'c', 'e', 'f')), ({'k': [5, 6, 7, 8, 9]}, {'k': [6, 7, 9, 10, 11]}),
+        ([0, 1, 2, 3, 4, 5], [1, 2, 9, 3, 5]), ([1, 1, 2, 3], [2, 1, 3, 3]),
         # tuples as dictionary keys next to int keys and list indexes that spell the same path when a tuple is rendered item by item (finding F64)
         ({(1, 2): 5, 1: [0, 0, 7]}, {(1, 2): 6, 1: [0, 0, 7]}), ({(0,): 'a', 0: 'b'}, {(0,): 'c', 0: 'b'}), ([{(1, 1): [1]}, [0, [2]]], [{(1, 1): [1, 2]}, [0, [2]]]),
         ({(): {'k': 1}}, {(): {'k': 2}, (4,): 0}), ({(1, (2, 3)): 1}, {(1, (2, 3)): 2}),
@@ -317,6 +320,35 @@ def run(ctx, impl_only=False):
         if sorted(map(repr, ra)) != sorted(map(repr, rb)) or type(r) is not type(b):
             ctx.violate({'t1': repr(a), 't2': repr(b), 'ignore_order': True}, 'result %r is not t2 %r up to order' % (r, b))
         ctx.count('ignore_order_lists')
+    # several lists of distinct scalars in one order-ignoring delta, where an item added to one list is an untouched member of another
+    def up_to_order(x, y):
+        if isinstance(x, dict) and isinstance(y, dict):
+            return set(x) == set(y) and all(up_to_order(x[k], y[k]) for k in x)
+        if isinstance(x, list) and isinstance(y, list):
+            return sorted(map(repr, x)) == sorted(map(repr, y))
+        return type(x) is type(y) and x == y
+    for _ in range(120 if ctx.thorough() else 30):
+        pool = list(range(12)) + ['a', 'b', 'c']
+        names = ctx.rng.sample(['a', 'b', 'c', 'd'], ctx.rng.randint(2, 3))
+        t1 = {k: ctx.rng.sample(pool, ctx.rng.randint(2, 5)) for k in names}
+        t2 = {}
+        for k in names:
+            l = [x for x in t1[k] if ctx.rng.random() < 0.8]
+            l += [x for x in ctx.rng.sample(pool, ctx.rng.randint(1, 3)) if x not in l]
+            ctx.rng.shuffle(l)
+            t2[k] = l
+        if ctx.rng.random() < 0.3:
+            t1, t2 = {'w': t1, 'z': 0}, {'w': t2, 'z': 0}
+        ctx.evaluations += 1
+        case = {'t1': repr(t1), 't2': repr(t2), 'ignore_order': True}
+        ctx.nontriv(('io-multi', repr(t1), repr(t2)))
+        try:
+            r = copy.deepcopy(t1) + Delta(DeepDiff(t1, t2, ignore_order=True, report_repetition=True), raise_errors=True)
+        except Exception as e:
+            ctx.violate(case, 'raised %s: %s' % (type(e).__name__, str(e)[:80])); continue
+        if not up_to_order(r, t2):
+            ctx.violate(case, 'result %r is not t2 %r up to the order of the lists' % (r, t2))
+        ctx.count('ignore_order_several_lists')
     # ---- boundary witnesses
     def same(t1, t2, **kw):
         try:
